@@ -151,7 +151,11 @@ func (cl *Loader) load(file string) (config map[string]interface{}, err error) {
 
 	var raw map[string]interface{}
 	importDir := path.Dir(file)
-	if imports, ok := config["import"]; ok {
+	if imports, ok := config["import"]; ok && imports != nil {
+		if err = checkImportList(file, imports); err != nil {
+			return nil, err
+		}
+
 		for _, v := range imports.([]interface{}) {
 			if utils.IsURL(v.(string)) {
 				if cl.imports[v.(string)] {
@@ -188,6 +192,22 @@ func (cl *Loader) load(file string) (config map[string]interface{}, err error) {
 	}
 
 	return config, nil
+}
+
+// checkImportList verifies that the "import" section is a list of strings
+func checkImportList(file string, imports interface{}) error {
+	list, ok := imports.([]interface{})
+	if !ok {
+		return fmt.Errorf("%s: \"import\" must be a list of files, directories or URLs", file)
+	}
+
+	for _, v := range list {
+		if _, ok := v.(string); !ok {
+			return fmt.Errorf("%s: \"import\" entries must be strings, got %v", file, v)
+		}
+	}
+
+	return nil
 }
 
 func (cl *Loader) loadDir(dir string) (map[string]interface{}, error) {
